@@ -23,6 +23,7 @@ from harness.common.isolated import run_many
 PID = "C01"
 LEVEL = "proof"
 REQUIRED_THEOREMS = [
+    "withCorners_periodic_y", "stencil9_cubic_exact_isotropic", "stencil9_anisotropic_inconsistent",
     "sphTensorDivergence_conservative_first_order_at_origin", "sphTensorDoubleDivergence_conservative_inconsistent_at_origin",
     "d1_central_poly", "d1_forward_poly", "d1_backward_poly", "d2_poly", "d1_linear", "d2_linear",
     "cartLaplace_poly_2d", "polarLaplace_poly", "polarLaplace_even_uniform", "sphLaplace_plain_poly",
@@ -57,7 +58,7 @@ REQUIRED_THEOREMS = [
     "cylVectorLaplace_r_error_eq", "cylVectorLaplace_first_order_at_axis_smooth",
     "cylVectorLaplace_first_order_at_axis_sharp",
 ]
-EXTRA_PROP_FILES = ["C01Taylor", "C01Smooth", "C01SmoothB", "C01Axis"]
+EXTRA_PROP_FILES = ["C01Taylor", "C01Smooth", "C01SmoothB", "C01Axis", "C01Nine"]
 RULE = ("matrix leg: seed-derived grids of the four stencil families (Cartesian 1-3 axes incl. UnitGrid, polar, "
         "spherical, cylindrical; 1-4 cells per axis, anisotropic dyadic spacings, with/without hole) x every registered "
         "operator x every documented option (central/forward/backward, conservative or not, central flag) x route; "
@@ -75,7 +76,7 @@ RANKS = {"laplace": (0, 0), "gradient_squared": (0, 0), "gradient": (0, 1), "div
          "tensor_double_divergence": (2, 0)}
 METHODS = ["central", "forward", "backward"]
 OPS = {
-    "cart": {"laplace": [{}], "gradient": [{"method": m} for m in METHODS],
+    "cart": {"laplace": [{}, {"corner_weight": 0.5}, {"corner_weight": 1 / 3}, {"corner_weight": 0.0}], "gradient": [{"method": m} for m in METHODS],
              "gradient_squared": [{"central": True}, {"central": False}],
              "divergence": [{"method": m} for m in METHODS],
              "vector_gradient": [{"method": m} for m in METHODS], "vector_laplace": [{}],
@@ -106,7 +107,7 @@ def make_grid(g):
     if cls == "cart":
         if g.get("unit"):
             return pde.UnitGrid(shape)
-        return pde.CartesianGrid([[a, b] for a, b in zip(lo, hi)], shape)
+        return pde.CartesianGrid([[a, b] for a, b in zip(lo, hi)], shape, periodic=g.get("periodic", False))
     rad = (lo[0], hi[0]) if lo[0] else hi[0]
     if cls == "polar":
         return pde.PolarSymGrid(rad, shape[0])
@@ -128,7 +129,11 @@ def gen_grid(rng, cls, nax=None, hole=None):
             lo.append(0.0 if hole is False else rng.choice([0.5, 1.0, 2.25, 7.0]) if hole else rng.choice([0.0, 0.0, 0.5, 1.0, 2.25, 7.0]))
         else:
             lo.append(rng.choice([0.0, -1.0, 0.5, -2.75, 3.0]))
-    return {"cls": cls, "shape": shape, "lo": lo, "dx": dx, "unit": unit}
+    g = {"cls": cls, "shape": shape, "lo": lo, "dx": dx, "unit": unit}
+    if cls == "cart" and not unit:
+        # the operators without boundary conditions ignore periodicity, except the corner points of the 9-point Laplacian
+        g["periodic"] = [rng.random() < 0.4 for _ in range(nax)]
+    return g
 
 
 def model_cfg(g, op, opts):
@@ -136,6 +141,9 @@ def model_cfg(g, op, opts):
     for k in ("method", "central", "conservative", "axis"):
         if k in opts:
             cfg[k] = opts[k]
+    if "corner_weight" in opts:
+        cfg["corner_weight"] = q(opts["corner_weight"])
+        cfg["periodic"] = [bool(x) for x in g.get("periodic", [False] * len(g["shape"]))]
     return cfg
 
 
@@ -326,7 +334,10 @@ def order_case(arg):
     res = []
     Ns = (8, 16, 32) if (cls == "cart" and dim_cart == 3) else ((16, 32, 64) if (cls == "cyl" or (cls == "cart" and dim_cart == 2)) else (32, 64, 128))
     for N in Ns:
-        if cls == "cart":
+        if cls == "cart" and "corner_weight" in opts:
+            # the 9-point stencils are documented for isotropic spacings only (the code warns otherwise)
+            grid = pde.CartesianGrid([[0.3, 2.3], [-1.0, 0.0]], [N, N // 2])
+        elif cls == "cart":
             grid = pde.CartesianGrid([[0.3, 2.3], [-1.0, 0.5], [0.2, 1.2]][:dim_cart], [N, max(2, N // 2), max(2, N // 2)][:dim_cart])
         elif cls == "polar":
             grid = pde.PolarSymGrid((lo, lo + 2.0) if lo else 2.0, N)
@@ -380,6 +391,11 @@ for _cls, _ops in OPS.items():
         for _o in _optl:
             if _cls == "cart":
                 for _d in (1, 2, 3):
+                    if "corner_weight" in _o:
+                        # the 9-point stencils are outside the order clause (the quantifier names the default 5-point
+                        # Laplacian): their interpolated corner points are first-order accurate only, which costs the
+                        # four corner cells of a non-periodic domain their consistency; the matrix leg and C05 cover them
+                        continue
                     ORDER_CASES.append((_cls, _op, _o, 0.0, _d))
             else:
                 for _lo in (0.0, 1.0):
@@ -422,7 +438,7 @@ def check_order(ctx, case, res, leg="order"):
     ctx.monitor_evals += 1
     # pre-asymptotic pairs may be lower; the finest pair decides, coarser pairs must not be far off
     ok = finite and (not obs or (obs[-1] >= exp - 0.25 and all(o >= exp - 0.6 for o in obs))) \
-        and (errs[-1] < (0.02 if exp == 2.0 else 0.2))
+        and (errs[-1] < ((0.1 if uniform else 0.02) if exp == 2.0 else 0.2))  # (the axis-regular family has larger derivatives)
     ctx.hist("observed-order" + ("-uniform" if uniform else ""), f"{cls}:{op}:{round(min(obs), 1) if obs else 'exact'}")
     if not ok:
         ctx.monitor_fail(leg, {"cls": cls, "op": op, "opts": opts, "r_min": lo, "dim_cart": case[4] if len(case) > 4 else 1,
@@ -458,6 +474,8 @@ def run(ctx):
         for op, optl in OPS[cls].items():
             for opts in optl:
                 for g in grids:
+                    if "corner_weight" in opts and len(g["shape"]) != 2:
+                        continue  # documented for the 2-d Laplacian only
                     rin = RANKS[op][0]
                     dim = DIM.get(cls, len(g["shape"]))
                     n_in = dim ** rin * int(np.prod([n + 2 for n in g["shape"]]))
@@ -490,7 +508,8 @@ def run(ctx):
     res_j = dict(zip(jit_ids, run_many("harness.c01", "real_matrix", [args_s[i] for i in jit_ids],
                                        env={"NUMBA_DISABLE_JIT": "0"}, procs=16)))
     scipy_ids = [i for i, (g, op, opts, _, data) in enumerate(jobs)
-                 if g["cls"] == "cart" and op in SCIPY_OPS and opts.get("method", "central") == "central"]
+                 if g["cls"] == "cart" and op in SCIPY_OPS and opts.get("method", "central") == "central"
+                 and "corner_weight" not in opts]  # (the scipy operator has no corner_weight option)
     res_sp = dict(zip(scipy_ids, run_many("harness.c01", "real_matrix",
                                           [(jobs[i][0], jobs[i][1], jobs[i][2], "scipy", jobs[i][4]) for i in scipy_ids],
                                           env={"NUMBA_DISABLE_JIT": "1"}, procs=16)))
